@@ -373,10 +373,24 @@ func ruleC02R3(w *World, r *Report) {
 				blk   *ssa.BasicBlock // block of the phi that selects validity
 				ret   *ssa.Return     // when the position comes out of a multi-result helper: the return taken
 				call  *ssa.Call
+				at    *ssa.Store      // when the field is assigned more than once: this assignment
 			}
 			var ctxs []ctx
 			for _, si := range sites {
 				v := si.val[f.Name()]
+				if sts := si.all[f.Name()]; len(sts) > 1 {
+					// assigned in the literal and again later (x.Rparen = ...): one context per assignment
+					for _, st := range sts {
+						for _, a := range w.PosFlow().Of(st.Val, st, 0) {
+							if a.kind == "invalid" {
+								ctxs = append(ctxs, ctx{si: si, valid: false, edge: -1, at: st})
+							} else if a.kind != "zero" {
+								ctxs = append(ctxs, ctx{si: si, valid: true, edge: -1, at: st})
+							}
+						}
+					}
+					continue
+				}
 				if ex, ok := v.(*ssa.Extract); ok {
 					if call, ok := ex.Tuple.(*ssa.Call); ok && call.Call.StaticCallee() != nil && call.Call.StaticCallee().Blocks != nil {
 						callee := call.Call.StaticCallee()
@@ -486,6 +500,12 @@ func ruleC02R3(w *World, r *Report) {
 						}
 						ai := w.fieldInCtx(ci.si, g.Name(), ci.blk, ci.edge, ci.ret, ci.call)
 						av := w.fieldInCtx(cv.si, g.Name(), cv.blk, cv.edge, cv.ret, cv.call)
+						if ci.at != nil {
+							ai = w.fieldAtStore(ci.si, g.Name(), ci.at)
+						}
+						if cv.at != nil {
+							av = w.fieldAtStore(cv.si, g.Name(), cv.at)
+						}
 						if !distinguishable(ai, av) {
 							all = false
 						}
@@ -531,6 +551,52 @@ func (w *World) fieldInCtx(si *siteInfo, g string, blk *ssa.BasicBlock, edge int
 		}
 	}
 	return si.env[g]
+}
+
+// fieldAtStore: the value of field g of the allocation at the time position field f is assigned by st:
+// the assignment to g in the same block if there is one, else the value the literal gave it (or the zero
+// value), joined with any assignment to g nested under st's block (which may or may not have run).
+func (w *World) fieldAtStore(si *siteInfo, g string, st *ssa.Store) AV {
+	v := w.Value()
+	gf := si.ns.field(g)
+	if gf == nil {
+		return avTop()
+	}
+	initial := zeroAV(gf.Type())
+	var same *ssa.Store
+	var nested []*ssa.Store
+	for _, gs := range si.all[g] {
+		switch {
+		case gs.Block() == st.Block():
+			same = gs
+		case gs.Block() == si.al.Block():
+			initial = v.get(gs.Val)
+		case st.Block().Dominates(gs.Block()):
+			nested = append(nested, gs)
+		}
+	}
+	if st.Block() == si.al.Block() {
+		// the assignment made by the literal itself: later assignments have not happened
+		if same != nil {
+			return v.get(same.Val)
+		}
+		return initial
+	}
+	if same != nil {
+		av := v.get(same.Val)
+		if call, ok := same.Val.(*ssa.Call); ok {
+			if c := call.Call.StaticCallee(); c != nil && v.emptyImpossibleHere(call, c, 0) {
+				av.mayEmpty, av.mayNil = false, false
+				av.mayFull = true
+			}
+		}
+		return av
+	}
+	out := initial
+	for _, gs := range nested {
+		out = avJoin(out, v.get(gs.Val))
+	}
+	return out
 }
 
 func distinguishable(a, b AV) bool {
